@@ -30,6 +30,8 @@ def seg_len(seg):
         return seg[3]
     if k == "const":
         return Lin.const(len(seg[1]))
+    if k == "rep":
+        return None
     if k == "byte":
         return Lin.const(1)
     if k == "zeros":
